@@ -114,8 +114,15 @@ BGR = [
 UNITS.append(dict(name="c17_simplifier_findBetterGoal", template="C17/bettergoal.c", mode="plain", entry="h_findBetterGoal", flags=PFL, unwind=7, unwindset={"ps_findBetterGoal.5": 2, "ps_findBetterGoal.6": 2}, defines=dict(MAXGOALS=1, MAXSA=1), split="per-property", split_groups=[r"\\.(array_bounds|pointer_dereference)\\.", r"^h_findBetterGoal\\.overflow", r"^ps_findBetterGoal\\.overflow\\.[0-9]$", r"^ps_findBetterGoal\\.overflow\\.1[0-9]$", r"^ps_findBetterGoal\\.overflow\\.2[0-9]$", r"^ps_findBetterGoal\\.overflow", r"\\.overflow\\.", r"unwind"], level="bounded", backend="minisat", timeout=900,
                   sources=[dict(name="findBetterGoal", file=PS, sig=r"bool ompl::geometric::PathSimplifier::findBetterGoal\(PathGeometric &path, const base::PlannerTerminationCondition &ptc,\s*unsigned int samplingAttempts, double rangeRatio,\s*double snapToVertex\)", rules=BGR, loops={"allow_uncontracted": True})],
                   bound="paths of <= 4 states, 1 sampled goal x 1 sampling attempt (every attempt before the accepted one leaves the path untouched); additive objective with non-negative motion costs <= 2^40", functions=["ompl::geometric::PathSimplifier::findBetterGoal"],
-                  canaries=[dict(name="cost_to_come_before_snapping", where="body:findBetterGoal", rx=r"long costToCome = costs\[IDX_C\(startIndex\)\];", repl="long costToCome = costs[IDX_C(start)];"),
-                            dict(name="goal_motion_not_validated", where="body:findBetterGoal", rx=r"&& CM\(state, tempGoal\)", repl="&& (CM(state, tempGoal) || 1)")]))
+                  canaries=[dict(name="cost_to_come_before_snapping", where="body:findBetterGoal", rx=r"long costToCome = costs\[IDX_C\(startIndex\)\];", repl="long costToCome = costs[IDX_C(start)];", props=[r"C17\.cost", r"C17\.range"]),
+                            dict(name="goal_motion_not_validated", where="body:findBetterGoal", rx=r"&& CM\(state, tempGoal\)", repl="&& (CM(state, tempGoal) || 1)", props=[r"C17\.validated"])]))
+
+# ---------------------------------------------------------------- PathHybridization::clear
+UNITS.append(dict(name="c17_hybridization_clear", template="C17/hybrid_clear.c", mode="plain", entry="h_hybrid_clear", flags=PFL, level="proof", backend="minisat", timeout=300, functions=["ompl::geometric::PathHybridization::clear"],
+                  sources=[dict(name="clear", file="src/ompl/geometric/src/PathHybridization.cpp", sig=r"void ompl::geometric::PathHybridization::clear\(\)", loops={},
+                                rules=[(r"hpath_\.reset\(\);", "hpath_set = 0;", 0), (r"paths_\.clear\(\);", "paths_n = 0;", 0), (r"g_\.clear\(\);", "g_nv = 0;", 0), (r"boost::add_vertex\(g_\)", "ADD_VERTEX()", 0),
+                                       (r"stateProperty_\[(\w+)\] = nullptr;", r"SP[\1] = NIL;", 0)])],
+                  canaries=[dict(name="graph_kept", where="body:clear", rx=r"g_nv = 0;", repl="")]))
 
 ASSUMPTIONS = ["the state vector is modelled as the identity sequence; getMotionStates(s1,s2,block,ns,false,true) yields exactly ns interior states (its own contract, not verified here)",
                "(int)floor(0.5 + count*segLen/remaining) is an arbitrary int below INT_MAX: for a zero-length path the operand is NaN and the conversion is undefined behaviour in C++ (x86 yields INT_MIN, which the code tolerates); recorded as an assumption"]
